@@ -514,6 +514,8 @@ package prover
 //@   assert@return result1 == nil ==> deref(result0).Proof == proof
 //@   snap@def:proof proveErr = err
 //@   assert@return result1 == nil ==> proveErr == nil
+// completeness (C07): a batch is refused only by the shape check or by gnark (witness construction, solver) — never by the glue
+//@   assert@return result1 != nil ==> origin(result1, "ValidateShape|NewWitness|Prove")
 
 //@ func (*ProvingSystem) ProveDeletion
 //@   property C07 C09 C13
@@ -547,6 +549,8 @@ package prover
 //@   assert@return result1 == nil ==> deref(result0).Proof == proof
 //@   snap@def:proof proveErr = err
 //@   assert@return result1 == nil ==> proveErr == nil
+// completeness (C07): a batch is refused only by the shape check or by gnark (witness construction, solver) — never by the glue
+//@   assert@return result1 != nil ==> origin(result1, "ValidateShape|NewWitness|Prove")
 
 //@ func (*ProvingSystem) VerifyInsertion
 //@   property C07
